@@ -404,6 +404,13 @@ class ModelWorld(BaseWorld):
             raise Unresolvable()
         return self.obj[h]
 
+    def _cls(self, name):
+        cls = getattr(self.factory.ns, name, None)
+        if cls is None:
+            self.fail('C06.classes', f'the generated classes do not expose {name!r}, which the '
+                                     f'language defines')
+        return cls
+
     # ---------------------------------------------------------------- C06.classes
     def _check_classes(self):
         ns = self.factory.ns
@@ -812,8 +819,17 @@ class ModelWorld(BaseWorld):
         selfl = any(h in right for h in left)
         if selfl and self.guard('self_link'):
             return None
-        return {'op': 'add_assoc', 'h': self.new_handle('s'), 'cls': info.cls,
-                'left': left, 'right': right}
+        op = {'op': 'add_assoc', 'h': self.new_handle('s'), 'cls': info.cls,
+              'left': left, 'right': right}
+        if rng.random() < 0.3:
+            # the fields are filled the way a list is: first member assigned, the others
+            # appended; the caller may look at a field before the add, and may simply try
+            # again after a refusal
+            op['how'] = 'append'
+            op['peek'] = rng.random() < 0.4
+        if invalid and rng.random() < 0.4:
+            op['attempts'] = 2
+        return op
 
     def _stale_assoc_ok(self, ref, s):
         """A removed association may be used as an argument only if no live
@@ -865,8 +881,13 @@ class ModelWorld(BaseWorld):
             kid = None
         else:
             kid = rng.choice([0, 1, 5, 20, 33, -2, 100])
-            if kid in used:
+            if kid in used and (self.prop == 'setup' or self.guard('attacker_id_in_use')
+                                or rng.random() < 0.5):
+                # (tests/test_model.py pins that add_attacker accepts an id in use; what
+                # that does to a saved file is the known finding of C07)
                 kid = None
+            elif self.prop != 'setup' and self.cfg.get('p_invalid', 0) and rng.random() < 0.12:
+                kid = rng.choice(['7', 2.5, '3'])       # not an integer: must be refused
         name = rng.choice([None, None, '', 'Attacker1', 'eve', 'yes', 'Attacker:0'])
         names = {ref.attackers[k].name for k in ref.attacker_order}
         if name in names:
@@ -1038,7 +1059,7 @@ class ModelWorld(BaseWorld):
             kwargs['extras'] = copy.deepcopy(op['extras'])
         if op.get('ctor'):
             kwargs.update(defs)
-        cls = getattr(self.factory.ns, t)
+        cls = self._cls(t)
 
         def build():
             a = cls(**kwargs)
@@ -1216,19 +1237,35 @@ class ModelWorld(BaseWorld):
         problem = ref.association_problem(info.cls, left, right)
         if nonmember:
             problem = problem or 'nonmember'
-        cls = getattr(self.factory.ns, info.cls)
+        cls = self._cls(info.cls)
 
         def build():
             s = cls()
-            setattr(s, info.lf, [self.obj[x] for x in left])
-            setattr(s, info.rf, [self.obj[x] for x in right])
+            if op.get('how') == 'append':
+                for f, hs in ((info.lf, left), (info.rf, right)):
+                    setattr(s, f, [self.obj[hs[0]]])
+                    for x in hs[1:]:
+                        getattr(s, f).append(self.obj[x])
+            else:
+                setattr(s, info.lf, [self.obj[x] for x in left])
+                setattr(s, info.rf, [self.obj[x] for x in right])
             return s
         names = lambda hs: [ref.assets[x].name for x in hs]     # noqa: E731
         where = f'add_association {info.cls}({info.lf}={names(left)}, {info.rf}={names(right)})'
+        if op.get('how') == 'append':
+            where += ' [members appended to the fields]'
         o = call(build)
         if not o.raised:
             s = o.value
+            if op.get('peek'):
+                for f in (info.lf, info.rf):
+                    call(lambda f=f: len(list(getattr(s, f))))      # a look at the field
             o = call(model.add_association, s)
+            if o.raised and op.get('attempts', 1) > 1:
+                # refused: the caller tries the very same call again
+                self.count('fault:refused_add_association_retried')
+                o = call(model.add_association, s)
+                where += ' [second attempt with the same object]'
         if problem:
             self.count('fault:rejected_assoc_' + problem.split(':')[0])
             if problem == 'nonmember':
@@ -1315,12 +1352,30 @@ class ModelWorld(BaseWorld):
         if h in self.obj:
             raise Unresolvable()
         name, kid = op.get('name'), op.get('id')
-        if kid is not None and kid in {ref.attackers[k].id for k in ref.attacker_order}:
-            raise Unresolvable()
         at = self.AttackerAttachment() if name is None else self.AttackerAttachment(name=name)
         kw = {} if kid is None else {'attacker_id': kid}
         o = call(model.add_attacker, at, **kw)
-        where = f'add_attacker(name={name!r}, id={kid})'
+        where = f'add_attacker(name={name!r}, id={kid!r})'
+        in_use = kid is not None and kid in {ref.attackers[k].id for k in ref.attacker_order}
+        bad_type = kid is not None and (not isinstance(kid, int) or isinstance(kid, bool))
+        if in_use and not o.raised:
+            # accepted, as the repository's own test demands ("can be duplicate id"): the
+            # model now holds two attackers under one id.  Attackers are written by id.
+            self.count('probe:two_attackers_under_one_id')
+            d = call(model._to_dict)
+            n_written = len(d.value.get('attackers', {})) if not d.raised else -1
+            if n_written != len(model.attackers):
+                self.fail('C07.roundtrip', f'{where} was accepted; the model holds '
+                          f'{len(model.attackers)} attackers, its serialised form {n_written}: '
+                          f'one of the two attackers under id {kid} is lost on save')
+            raise SetupRejected('desync:C05.attackers')   # no reference for such a model
+        if in_use or bad_type:
+            self.count('fault:rejected_attacker_id_' + ('in_use' if in_use else 'not_an_integer'))
+            if not o.raised:
+                # an id that is not an integer poisons next_id (assets need integers)
+                self.fail('C05.attackers', f'{where} was accepted although the id is not an integer')
+            self.check_model(mi, where=where + ' [refused]')
+            return 'rejected'
         if o.raised:
             self.fail('C05.must_not_raise', f'{where} raised {o.exc!r}')
         self.obj[h] = at
